@@ -34,8 +34,8 @@ def Listed.nonEmpty : Listed → Bool
 
 /-- the JSON block as written by the user -/
 structure CAConf where
-  /-- `ca` (a `tls.ca_pool.source` module) is set -/
-  caRaw : Bool
+  /-- `ca` (a `tls.ca_pool.source` module) is set; `bad` = the module fails to load at provision time -/
+  caRaw : Listed
   trustedCACerts : Listed
   pemFiles : Listed
   trustedLeaf : Listed
@@ -61,7 +61,7 @@ structure CAState where
   deriving DecidableEq, Repr
 
 def CAConf.init (c : CAConf) : CAState :=
-  ⟨c.caRaw, c.trustedCACerts.nonEmpty, c.pemFiles.nonEmpty, c.trustedLeaf.nonEmpty, c.verifiersRaw, c.mode, false, 0⟩
+  ⟨c.caRaw.nonEmpty, c.trustedCACerts.nonEmpty, c.pemFiles.nonEmpty, c.trustedLeaf.nonEmpty, c.verifiersRaw, c.mode, false, 0⟩
 
 /-- `ClientAuthentication.Active()` -/
 def CAState.active (s : CAState) : Bool :=
@@ -78,6 +78,7 @@ def provisionCA (c : CAConf) (s : CAState) : Option CAState :=
   else if s.trustedCACerts || s.pemFiles then
     some { s with trustedCACerts := true, ca := true }                -- (CARaw is nil here, see the first test)
   else if !s.caRaw then some s
+  else if c.caRaw = .bad then none                                    -- ctx.LoadModule(clientauth, "CARaw") fails
   else some { s with caRaw := false, ca := true }                     -- LoadModule zeroes the raw field
 
 /-- what `ConfigureTLSConfig` leaves in the `tls.Config` -/
